@@ -16,7 +16,7 @@ class C16(scen.WorldProp):
                 "Wheatley.C16.no_calls_go",
                 "Wheatley.C16.late_go_flush",
                 "Wheatley.C16.rounds_carry_no_stale_calls",
-                "Wheatley.C16.cli_no_calls", "Wheatley.C16.cli_comp_with_start_row"]
+                "Wheatley.C16.cli_no_calls", "Wheatley.C16.cli_comp_with_start_row", "Wheatley.C16.no_calls_when_told_not_to"]
     # the command line: what of the built configuration this property is about
     cli_fields = ['call_comps', 'source']
     level_text = ("theorems: a composition generator yields the payload's rows in order then rounds for ever; calls "
